@@ -179,6 +179,35 @@ fn gen(r: &mut Rng, tier: &Tier, out: &mut Vec<String>) {
             push_r(out, &encode(&h));
         }
     }
+    // counts beyond one byte: 256..520 cipher suites and, separately, 256..400 extensions, with GREASE sprinkled in so
+    // that the number left after stripping GREASE lands on both sides of 256 (a count narrowed to u8 before the
+    // clamp prints n mod 256: 256 -> "00", 261 -> "05", 300 -> "44")
+    {
+        let mut big: Vec<(usize, usize, usize, usize)> = vec![]; // (non-GREASE ciphers, GREASE ciphers, non-GREASE exts, GREASE exts)
+        for &n in &[255usize, 256, 257, 261, 300, 354, 512, 520] { big.push((n, 0, 3, 0)); }
+        for &n in &[254usize, 256, 299] { big.push((n, 3, 2, 1)); }
+        for &n in &[255usize, 256, 257, 261, 300, 340, 400] { big.push((5, 1, n, 0)); }
+        for &n in &[254usize, 256, 290] { big.push((4, 0, n, 3)); }
+        big.push((256, 2, 256, 2)); big.push((300, 0, 261, 0));
+        for _ in 0..tier.scale(6, 120) {
+            if r.chance(1, 2) { big.push((r.range(250, 520) as usize, r.below(4) as usize, r.below(12) as usize, r.below(2) as usize)); }
+            else { big.push((r.below(12) as usize, r.below(2) as usize, r.range(250, 400) as usize, r.below(4) as usize)); }
+        }
+        if tier.thorough { for n in 250..=360usize { big.push((n, n % 3, 1, 0)); big.push((2, 0, n, n % 4)); } }
+        for (nc, gc, ne, ge) in big {
+            let mut ciphers: Vec<u16> = (0..nc).map(|i| 0x0100 + ((i as u16).wrapping_mul(37) % 0x7000)).collect();
+            for _ in 0..gc { let p = r.below(ciphers.len() as u64 + 1) as usize; ciphers.insert(p, *r.pick(&GREASE)); }
+            let mut exts: Vec<(u16, Body)> = (0..ne).map(|i| (0x4000 + i as u16, Body::Raw(if i % 7 == 0 { vec![i as u8] } else { vec![] }))).collect();
+            if ne > 0 && r.chance(1, 2) { exts.insert(r.below(ne as u64) as usize, (0, Body::Sni(vec![(0, b"many.example".to_vec())]))); }
+            if ne > 0 && r.chance(1, 2) { exts.insert(r.below(ne as u64) as usize, (16, Body::Alpn(vec![b"h2".to_vec()]))); }
+            if ne > 0 && r.chance(1, 2) { exts.insert(r.below(ne as u64) as usize, (13, Body::SigAlgs(vec![0x0403, 0x0804]))); }
+            for _ in 0..ge { let p = r.below(exts.len() as u64 + 1) as usize; exts.insert(p, (*r.pick(&GREASE), Body::Raw(vec![]))); }
+            let h = Hello { rec_version: 0x0301, version: 0x0303, random: r.bytes(32), sid: vec![], ciphers, comp: vec![0], exts, omit_ext_block: false };
+            let a = encode(&h);
+            push_r(out, &a);
+            if r.chance(1, 3) { let v = variant(r, &h); out.push(format!("V {} {}", hex(&a), hex(&encode(&v)))); }
+        }
+    }
     // malformed: truncations, length lies, bit flips, foreign record / handshake types
     for _ in 0..tier.scale(60, 600) {
         let h = gen_hello(r, &SMALL);
